@@ -1088,6 +1088,11 @@ impl CollectionV3 {
     pub fn load_contig_batch(&mut self, archive: &mut Archive, id_batch: usize) -> Result<()> {
         // Use cumulative samples_loaded counter, NOT id_batch * batch_size
         // C++ AGC creates batches of ~50 samples, but batch_size defaults to 1M which is wrong
+        // Batches are always loaded in order 0..n; loading batch 0 again (a later query that
+        // reloads the metadata) starts over instead of indexing past the last sample.
+        if id_batch == 0 {
+            self.samples_loaded = 0;
+        }
         let i_sample = self.samples_loaded;
 
         // Load contig names
